@@ -87,6 +87,8 @@ func mutantsFor(prop string) []Mutant {
 		{"C05", "statements after a return still run in a transform", []Edit{{sr, "\tfor _, stmt := range i.Process {\n\t\tpstate = executeStatement(&stmt, pstate)\n\t\tif pstate.status == RETURNING {\n\t\t\tfinal_value = pstate.currentValue\n\t\t\tbreak\n", "\tfor _, stmt := range i.Process {\n\t\tpstate = executeStatement(&stmt, pstate)\n\t\tif pstate.status == RETURNING {\n\t\t\tfinal_value = pstate.currentValue\n"}}},
 		{"C11", "the true branch of an if keeps running after a return", []Edit{{ex, "\t\tfor _, stmt := range s.TrueBody {\n\t\t\texpr_state = executeStatement(&stmt, expr_state)\n\t\t\tif expr_state.status != NEXT {\n\t\t\t\tbreak\n\t\t\t}\n", "\t\tfor _, stmt := range s.TrueBody {\n\t\t\texpr_state = executeStatement(&stmt, expr_state)\n"}}},
 		{"C04", "skip ignored when all is set", []Edit{{sr, "\t\t\tif matchNumber >= skip {", "\t\t\tif all || matchNumber >= skip {"}}},
+		{"C15", "an empty line comment takes its newline", []Edit{{lx, "\t\t\tcurrent_state = SCOMMENT\n\t\t\tif ch == '\\n' {\n\t\t\t\t// an empty line comment ends at its newline like any other\n\t\t\t\ts.unread_last()\n\t\t\t\tbreak\n\t\t\t}\n\t\t\tbuf.WriteRune(ch)\n", "\t\t\tcurrent_state = SCOMMENT\n\t\t\tbuf.WriteRune(ch)\n"}}},
+		{"C15", "a parenthesis inside the end marker goes back to the comment body", []Edit{{lx, "\t\t} else if current_state == SBLOCKCOMMENTENDEND && ch == ')' {\n\t\t\t// \")-)\" : the second parenthesis may be the one that begins the end marker\n\t\t\tbuf.WriteRune(ch)\n\t\t\tcurrent_state = SBLOCKCOMMENTSTARTEND\n", ""}}},
 		{"C08", "parse error leaves the parser lock held", []Edit{{ps, "\tcapture_group_lock.Lock()\n\tdefer capture_group_lock.Unlock()\n", "\tcapture_group_lock.Lock()\n"}}},
 		{"C14", "regexp literal byte converted as a code point", []Edit{{rx, "\t\tstart = &AstString{false, regexp[index : index+size], false}", "\t\tstart = &AstString{false, string(regexp[index]), false}"}}},
 		{"C16", "layout branch takes the blank after a backslash", []Edit{{lx, "\t\t} else if unicode.IsSpace(ch) && current_state != SSTRING_D_ESCAPE && current_state != SSTRING_S_ESCAPE {", "\t\t} else if unicode.IsSpace(ch) {"}}},
